@@ -57,11 +57,11 @@ def run(tier, seed, replay=None):
     res = C.Result("C02", tier, seed)
     res.rule = ("published-format subset: V1/V2, classic tables, methods none/zlib/bzip2, plain / encrypted / fix-key files, single- and multi-sector; direction A: "
                 "ArchiveBuilder output is read by the extracted reference reader (codecs: CPython zlib/bz2); direction B: archives written by the reference writer are "
-                "read by Archive::read_file/list; contents, listing and not-found answers are compared; non-trivial = file is compressed, encrypted or multi-sector; "
+                "read by Archive::read_file/list, also after the first name of a probe chain has been deleted in the hash table; contents, listing and not-found answers are compared; non-trivial = file is compressed, encrypted or multi-sector; "
                 "distinct = distinct case")
     res.assumptions = ["the reference (coq/Mpq/MpqRef.v) is my transcription of the published MPQ format, not a third-party program; its hash and cipher are the reference forms "
                        "proved equal to the model in C04", "CPython zlib/bz2 are the independent codecs on the reference side"]
-    mok, iok = C.standard_builds(res, "C02", ["impl_mpq"])
+    mok, iok = C.standard_builds(res, "C02", ["impl_mpq", "impl_crypt"])
     if not (mok and iok):
         return res.finish()
     r = C.rng(seed, "C02")
@@ -190,6 +190,50 @@ def run(tier, seed, replay=None):
         if gl != want and good:
             res.failing.append(("listing-differs", "listing of a reference-written archive differs", dict(case, got=gl[:5], want=want[:5])))
         b_ok += good
+    # ---- direction B, deleted hash entries: a reference-written archive in which the first name of a probe chain was deleted
+    #      afterwards (entry = FFFFFFFF FFFFFFFF FFFF FFFF FFFFFFFE, as the format prescribes); the names behind it must still be found
+    import struct
+    from . import c06
+    icr = [C.bin_path("impl_crypt")]
+    by, _ = c06.collision_groups(icr[0], 16)
+    del_cases = 0
+    for grp in sorted(by.values(), key=len, reverse=True)[: (4 if big else 2)]:
+        if len(grp) < 3:
+            continue
+        a_, t_, u_ = grp[0], grp[1], grp[2]
+        fl = [(a_, b"deleted later " * 5), (t_, b"target content " * 7), (u_, b"third in the chain"), ("other.txt", b"elsewhere")]
+        ents = ",".join("%s:%s:0:0" % (C.hexs(nm.encode()), C.hexs(d)) for nm, d in fl)
+        o = model_rounds(["refwrite 0 10 %s" % ents])[0]
+        if not o or o.startswith(("ERR", "NEED", "EXC")):
+            res.broken.append(("reference-writer", {"case": "deleted-entry archive", "out": (o or "")[:100]}))
+            continue
+        raw = bytearray(bytes.fromhex(o))
+        hpos, = struct.unpack_from("<I", raw, 16)
+        hsz, = struct.unpack_from("<I", raw, 24)
+        hk, ha, hb = C.run_lines(icr, ["hash 300 %s" % C.hexs(b"(hash table)"), "hash 100 %s" % C.hexs(a_.encode()), "hash 200 %s" % C.hexs(a_.encode())], shards=1)
+        plain = bytearray(bytes.fromhex(C.run_lines(icr, ["decw %s %s" % (hk, bytes(raw[hpos:hpos + 16 * hsz]).hex())], shards=1)[0]))
+        hit = [k for k in range(hsz) if struct.unpack_from("<II", plain, 16 * k) == (int(ha, 16), int(hb, 16))]
+        if len(hit) != 1:
+            res.broken.append(("reference-writer", {"case": "deleted-entry archive: entry of the first name not found", "hits": hit}))
+            continue
+        plain[16 * hit[0]:16 * hit[0] + 16] = b"\xff" * 12 + struct.pack("<I", 0xFFFFFFFE)
+        raw[hpos:hpos + 16 * hsz] = bytes.fromhex(C.run_lines(icr, ["encw %s %s" % (hk, bytes(plain).hex())], shards=1)[0])
+        pth = "%s/rdel%d.mpq" % (base, del_cases)
+        with open(pth, "wb") as f:
+            f.write(bytes(raw))
+        del_cases += 1
+        names = [a_, t_, u_, "other.txt"]
+        lo = C.run_lines(ib, ["readall %s %s" % (pth, ",".join(C.hexs(x.encode()) for x in names))])[0]
+        res.case("Bdel %s" % a_, nontrivial=True)
+        got = dict(it.split(">", 1) for it in lo.split(" | ")[0].split(",") if ">" in it)
+        case = {"direction": "reference writer -> Archive::read_file, first name of a probe chain deleted afterwards", "names": names, "library": lo[:300]}
+        if got.get(C.hexs(a_.encode()), "").startswith("OK:"):
+            res.failing.append(("lib-resolves-deleted-entry", "the library still resolves a name whose hash entry is marked deleted", case))
+        for nm, d in fl[1:]:
+            if got.get(C.hexs(nm.encode())) != "OK:" + C.hexs(d):
+                res.failing.append(("lib-misreads-behind-deleted-entry", "the library does not read %r, which sits behind a deleted entry of its probe chain in a format-conformant archive" % nm, case))
+                break
+    res.extra["direction_B_deleted_entry_archives"] = del_cases
     res.extra["direction_A_fully_read"] = a_ok
     res.extra["direction_B_fully_read"] = b_ok
     res.extra["cases"] = n
